@@ -1,10 +1,20 @@
 (* C10 -- Framing: a decode consumes exactly one file, so chained files are independent.
-   The buffered reader of reader.go is modelled by the concrete interpreter run_c (Model/IO.v: 4096-byte buffer,
-   fill capped by limit - n, chunk schedule with empty reads, EOF or fault, data-with-EOF); run_a is the
-   abstract interpreter over the plain byte list. Theorems hold for EVERY decoder program p. *)
+   Full statement (properties.jsonl): a successful Decode or CheckIntegrity consumes exactly header size + data
+   size + 2 bytes from the reader, and no entry point ever reads past that frame, however reads are chunked; hence
+   DecodeChained over a concatenation of valid files returns one File per input, each equal to decoding that file
+   alone, and DecodeHeader and DecodeHeaderAndFileID return the same header and file_id that Decode reports.
+
+   Model: Model/IO.v (reader oracle: data, chunk schedule with empty reads, EOF or fault, data-with-EOF; io.ReadFull,
+   io.CopyN; the 4096-byte buffer with fill capped by limit - n) and Model/Decode.v (decodeHeader, checkCRC, decode in
+   its four modes, the five entry points, DecodeChained).  [wf rd fuel] = the fuel exceeds data + schedule length
+   (fuel only bounds the loops; no theorem below depends on its value, and none runs out of it).
+   [solo bs] = a reader holding exactly bs that returns everything in one Read and then a clean EOF. *)
 From Coq Require Import NArith List Bool Arith.
-From FitV Require Import Model.Crc Model.IO Proofs.IOSim.
+From FitV Require Import Model.Crc Model.IO Model.Header Model.Route Model.Components Model.Decode
+  Proofs.IOSim Proofs.C10IO Proofs.C10Frame Proofs.C11Cut Proofs.C10Examples.
 Import ListNotations.
+
+(* ---- the buffered phase, for EVERY decoder program ---- *)
 
 (* however reads are chunked, the buffered phase computes what the abstract byte-list semantics computes *)
 Theorem C10_buffered_run_abstract : forall S E A (p : prog S E A) rd limit crc fuel s,
@@ -34,8 +44,130 @@ Theorem C10_never_past_frame : forall S E A (p : prog S E A) rd limit crc fuel s
 Proof. exact @never_past_frame. Qed.
 Print Assumptions C10_never_past_frame.
 
-(* PARTIAL: the raw stages around the buffered phase (io.ReadFull of the header and of the two CRC bytes,
-   io.CopyN in CheckIntegrity) and hence consumed_exact = header size + data size + 2 for whole entry points,
-   chained_concat and header_fileid_agree are covered by the harness (counting readers, all partition families,
-   concatenations) against the model's concrete entry points; the theorem above is the part that needs a proof
-   (unbounded schedules) and holds for every decoder program at once. *)
+(* ---- the raw stages: io.ReadFull (header, checksum bytes) and io.CopyN (CheckIntegrity) ---- *)
+
+(* with enough fuel they return, deliver the first n bytes of the data (all of it, with the error class of the
+   terminal condition, when fewer are left), and advance the reader by exactly that, whatever the schedule *)
+Theorem C10_io_read_full_spec : forall fuel rd n, wf rd fuel ->
+  exists rd', io_read_full fuel rd n [] = Done (firstn n (rd_data rd), rf_err n (rd_data rd) (rd_term rd), rd') /\ adv rd rd' n.
+Proof. exact io_read_full_spec. Qed.
+
+Theorem C10_io_copy_n_spec : forall fuel rd n, wf rd fuel ->
+  exists rd', io_copy_n fuel rd n [] = Done (firstn n (rd_data rd), cp_err n (rd_data rd) (rd_term rd), rd') /\ adv rd rd' n.
+Proof. exact io_copy_n_spec. Qed.
+Print Assumptions C10_io_read_full_spec.
+
+(* ---- the whole entry points ---- *)
+
+(* consumed_exact: a successful Decode / CheckIntegrity takes exactly header size + data size + 2 bytes *)
+Theorem C10_consumed_exact : forall o md g rd fuel r, wf rd fuel -> md = MFull \/ md = MCrcOnly ->
+  decode o md g rd fuel = TDone r -> dr_err r = None ->
+  rd_pos (dr_rd r) = rd_pos rd + N.to_nat (h_size (dr_hdr r)) + N.to_nat (h_dsize (dr_hdr r)) + 2.
+Proof. exact decode_consumed_exact. Qed.
+Print Assumptions C10_consumed_exact.
+
+Theorem C10_Decode_consumed_exact : forall o g rd fuel r, wf rd fuel -> entry_Decode o g rd fuel = TDone r -> dr_err r = None ->
+  rd_pos (dr_rd r) = rd_pos rd + N.to_nat (h_size (dr_hdr r)) + N.to_nat (h_dsize (dr_hdr r)) + 2.
+Proof. exact Decode_consumed_exact. Qed.
+
+Theorem C10_CheckIntegrity_consumed_exact : forall g rd fuel r, wf rd fuel ->
+  entry_CheckIntegrity false g rd fuel = TDone r -> dr_err r = None ->
+  rd_pos (dr_rd r) = rd_pos rd + N.to_nat (h_size (dr_hdr r)) + N.to_nat (h_dsize (dr_hdr r)) + 2.
+Proof. exact CheckIntegrity_consumed_exact. Qed.
+
+Theorem C10_DecodeHeader_consumed_exact : forall g rd fuel r, wf rd fuel -> entry_DecodeHeader g rd fuel = TDone r -> dr_err r = None ->
+  rd_pos (dr_rd r) = rd_pos rd + N.to_nat (h_size (dr_hdr r)).
+Proof. exact DecodeHeader_consumed_exact. Qed.
+
+(* never past the frame, for every mode (all five entry points are instances of decode) and every outcome,
+   failing ones included: the reader ends no further than the frame the header announces (no further than the
+   header for the header-only mode; Nat.max 1 accounts for the size byte itself when it is not a header size);
+   it is never rewound; the call never runs out of fuel *)
+Theorem C10_decode_never_past_frame : forall o md g rd fuel, wf rd fuel ->
+  match decode o md g rd fuel with
+  | TDone r =>
+      rd_pos rd <= rd_pos (dr_rd r) /\
+      rd_pos (dr_rd r) <= rd_pos rd + length (rd_data rd) /\
+      rd_pos (dr_rd r) <= rd_pos rd + Nat.max 1 (N.to_nat (h_size (dr_hdr r))) + N.to_nat (h_dsize (dr_hdr r)) + 2 /\
+      (md = MHeaderOnly -> rd_pos (dr_rd r) <= rd_pos rd + Nat.max 1 (N.to_nat (h_size (dr_hdr r)))) /\
+      wf (dr_rd r) fuel /\ rd_term (dr_rd r) = rd_term rd /\ rd_ewd (dr_rd r) = rd_ewd rd
+  | TPanic _ => True
+  | TOutOfFuel => False
+  end.
+Proof. exact decode_never_past_frame. Qed.
+Print Assumptions C10_decode_never_past_frame.
+
+(* schedule independence of the whole decode: error, header, File, accumulator state and quirk tags never depend
+   on the chunking; bytes consumed and bytes left agree whenever the call succeeds outside the file_id-only mode
+   (in that mode, and after a decoder-level failure, how far the 4096-byte buffer read ahead inside the frame
+   does depend on the chunking: that is what the code does, and why only "never past the frame" is claimed there) *)
+Theorem C10_decode_schedule_independent : forall o md g data t sched1 sched2 ewd1 ewd2 pos1 pos2 fuel1 fuel2,
+  length data + length sched1 < fuel1 -> length data + length sched2 < fuel2 ->
+  same_result pos1 pos2 md (decode o md g (mk_reader data sched1 t ewd1 pos1) fuel1)
+                           (decode o md g (mk_reader data sched2 t ewd2 pos2) fuel2).
+Proof. exact decode_schedule_independent. Qed.
+Print Assumptions C10_decode_schedule_independent.
+
+Theorem C10_chained_schedule_independent : forall o g data t sched1 sched2 ewd1 ewd2 pos1 pos2 fuel1 fuel2,
+  length data + length sched1 < fuel1 -> length data + length sched2 < fuel2 ->
+  match entry_DecodeChained o g (mk_reader data sched1 t ewd1 pos1) fuel1,
+        entry_DecodeChained o g (mk_reader data sched2 t ewd2 pos2) fuel2 with
+  | TDone c1, TDone c2 => cr_err c1 = cr_err c2 /\ cr_files c1 = cr_files c2 /\ cr_g c1 = cr_g c2 /\ cr_quirks c1 = cr_quirks c2
+  | TPanic w1, TPanic w2 => w1 = w2
+  | TOutOfFuel, TOutOfFuel => True
+  | _, _ => False
+  end.
+Proof. exact chained_schedule_independent. Qed.
+
+(* frame locality: what follows a file that decodes alone (and whatever the reader answers after it) is never
+   looked at: same results, exactly |bs| bytes taken, the rest left in the reader *)
+Theorem C10_frame_local : forall o md g bs r, md <> MFileIdOnly ->
+  decode o md g (solo bs) (solo_fuel bs) = TDone r -> dr_err r = None -> rd_data (dr_rd r) = [] ->
+  forall tl rd fuel, rd_data rd = bs ++ tl -> wf rd fuel ->
+  exists r', decode o md g rd fuel = TDone r' /\ dr_err r' = None /\ dr_hdr r' = dr_hdr r /\ dr_file r' = dr_file r /\
+             dr_g r' = dr_g r /\ dr_quirks r' = dr_quirks r /\
+             rd_pos (dr_rd r') = rd_pos rd + length bs /\ rd_data (dr_rd r') = tl.
+Proof. exact decode_frame_local. Qed.
+Print Assumptions C10_frame_local.
+
+(* chained_concat.  [chain_ok o g bss fs g' q] (Proofs/C10Frame.v) says: decoding the byte strings bss one after the
+   other, each ALONE, succeeds on each and consumes each completely, where the first decode starts in the package-
+   level accumulator state g, every decode starts in the state the previous one left (exactly what happens to the
+   process-wide accumulators of the library), the Files returned are fs, the final state is g'.  Then DecodeChained
+   on ANY reader holding the concatenation (any chunking, empty reads, data-with-EOF) returns exactly fs, no error,
+   ends in g' and has consumed the whole concatenation. *)
+Theorem C10_chained_concat : forall o g bss fs g' q, chain_ok o g bss fs g' q -> bss <> [] ->
+  forall rd fuel, rd_data rd = concat bss -> rd_term rd = TEOF -> wf rd fuel ->
+  exists cr, entry_DecodeChained o g rd fuel = TDone cr /\ cr_err cr = None /\ cr_files cr = fs /\ cr_g cr = g' /\
+             cr_quirks cr = q /\ rd_pos (cr_rd cr) = rd_pos rd + length (concat bss).
+Proof. exact chained_concat. Qed.
+Print Assumptions C10_chained_concat.
+
+(* header agreement: every mode (DecodeHeader, DecodeHeaderAndFileID, CheckIntegrity, Decode), under any options,
+   accumulator state and chunking, reports the same header for the same bytes *)
+Theorem C10_header_agree : forall o1 o2 md1 md2 g1 g2 rd1 rd2 fuel1 fuel2 r1 r2, wf rd1 fuel1 -> wf rd2 fuel2 ->
+  rd_data rd1 = rd_data rd2 -> rd_term rd1 = rd_term rd2 ->
+  decode o1 md1 g1 rd1 fuel1 = TDone r1 -> decode o2 md2 g2 rd2 fuel2 = TDone r2 ->
+  dr_hdr r1 = dr_hdr r2.
+Proof. exact header_agree. Qed.
+Print Assumptions C10_header_agree.
+
+(* the hypotheses are satisfiable: a concrete 25-byte file decodes alone; two of them form a chain; the chained decode
+   of their concatenation read one byte at a time returns two Files after 50 bytes *)
+Example C10_example_file : exists r, decode no_opts MFull g_init (solo ex_file) (solo_fuel ex_file) = TDone r /\
+  dr_err r = None /\ rd_data (dr_rd r) = [] /\ rd_pos (dr_rd r) = 25 /\ dr_g r = g_init.
+Proof. exact ex_file_decodes. Qed.
+Example C10_example_chain : exists fs q, chain_ok no_opts g_init [ex_file; ex_file] fs g_init q /\ length fs = 2.
+Proof. exact ex_chain. Qed.
+Example C10_example_chained : exists cr,
+  entry_DecodeChained no_opts g_init (mk_reader (ex_file ++ ex_file) (repeat 1 50) TEOF true 0) 120 = TDone cr /\
+  cr_err cr = None /\ length (cr_files cr) = 2 /\ rd_pos (cr_rd cr) = 50.
+Proof. exact ex_chained_concat. Qed.
+
+(* PARTIAL (said in the manifest too):
+   - file_id agreement: that the FileId DecodeHeaderAndFileID reports is the one Decode reports is NOT proved here; it
+     holds for streams with a single file_id message (with a second one Decode reports the last, the finding recorded
+     under C03) and needs the stream-level invariant of C02/C03.  The harness compares the two on every input.
+   - the theorems speak about the model; that reader.go/header.go behave as the model is established by the
+     lock-step correspondence run (bytes consumed from a counting reader, Files, header, error class) on every input
+     x partition x entry point of the harness. *)
